@@ -492,7 +492,7 @@ class Explorer(object):
         recv = None
         fval = None
         if isinstance(e.func, ast.Attribute):
-            if isinstance(e.func.value, ast.Name) and e.func.value.id not in env and e.func.value.id in ('JSON', 'Math', 'Object', 'Array', 'Number', 'String', 're', 'os', 'sys', 'math'):
+            if isinstance(e.func.value, ast.Name) and e.func.value.id not in env and (e.func.value.id in ('JSON', 'Math', 'Object', 'Array', 'Number', 'String', 'Buffer', 're', 'os', 'sys', 'math') or e.func.value.id in getattr(self.port, 'modules', {})):
                 recv = ('global', e.func.value.id)
             else:
                 recv = self.expr(e.func.value, env)
@@ -587,12 +587,19 @@ class Explorer(object):
                 return None
             if m == 'pop' and not args and recv:
                 return recv.pop()
+            if m == 'shift' and not args:
+                return recv.pop(0) if recv else None
+            if m == 'unshift' and len(args) == 1:
+                recv.insert(0, args[0])
+                return len(recv)
+            if m == 'at' and len(args) == 1 and isinstance(args[0], int):
+                return recv[args[0]] if -len(recv) <= args[0] < len(recv) else None
             if m == 'join' and len(args) <= 1:   # JS: lines.join('\n')
                 return Abs('Joined', sep=(args[0] if args else ','), items=tuple(recv))
             if m == 'concat' and len(args) == 1 and isinstance(args[0], list):
                 return recv + args[0]
-            if m == 'slice':
-                return recv[slice(*args)]
+            if m == 'slice' and len(args) <= 2 and all(isinstance(a, int) for a in args):
+                return list(recv) if not args else (recv[args[0]:] if len(args) == 1 else recv[args[0]:args[1]])
             if m == 'copy' and not args:
                 return list(recv)
             if m == 'map' and len(args) == 1:
@@ -620,6 +627,16 @@ class Explorer(object):
                 return getattr(recv, m.lower())(args[0])
             if m == 'count' and len(args) == 1 and isinstance(args[0], str):
                 return recv.count(args[0])
+            if m == 'charAt' and len(args) == 1 and isinstance(args[0], int):
+                return recv[args[0]] if 0 <= args[0] < len(recv) else ''
+            if m == 'at' and len(args) == 1 and isinstance(args[0], int):
+                return recv[args[0]] if -len(recv) <= args[0] < len(recv) else None
+            if m in ('substring', 'slice') and 1 <= len(args) <= 2 and all(isinstance(a, int) for a in args) and all(a >= 0 for a in args):
+                return recv[args[0]:args[1]] if len(args) == 2 else recv[args[0]:]
+            if m in ('indexOf', 'find') and len(args) == 1 and isinstance(args[0], str):
+                return recv.find(args[0])
+            if m == 'includes' and len(args) == 1 and isinstance(args[0], str):
+                return args[0] in recv
             if m == 'format':
                 if all(isinstance(a, (str, int)) and not isinstance(a, bool) for a in args):
                     try:
